@@ -160,6 +160,13 @@ func oracleC16(op string, a []string) string {
 		if back := nasConvert.PSIToBooleanArray(buf); back != arr {
 			return "FAIL array -> bitmap -> array differs"
 		}
+		var inv [16]bool
+		for i := range inv {
+			inv[i] = !arr[i]
+		}
+		if r := staleResult(func() []byte { return nasConvert.PSIToBuf(arr) }, func() []byte { return nasConvert.PSIToBuf(inv) }); r != "" {
+			return "FAIL PSIToBuf: " + r
+		}
 		return "pass"
 	case "pcomar":
 		l, ok := parseUnits(a[0])
@@ -183,6 +190,13 @@ func oracleC16(op string, a []string) string {
 		}
 		if showUnits(back.ProtocolOrContainerList) != showUnits(l) {
 			return "FAIL round trip differs: " + showUnits(back.ProtocolOrContainerList)
+		}
+		if r := staleResult(func() []byte { return pco.Marshal() }, func() []byte {
+			o := nasConvert.NewProtocolConfigurationOptions()
+			o.AddDNSServerIPv4AddressRequest()
+			return o.Marshal()
+		}); r != "" {
+			return "FAIL Marshal: " + r
 		}
 		return "pass"
 	case "pcounm":
@@ -250,7 +264,7 @@ func genPco(g *Gen, w *bufio.Writer) {
 		}
 		id := g.Intn(65536)
 		if g.Intn(2) == 0 {
-			id = []int{0x000d, 0x0003, 0x000a, 0x0010, 0x000c, 0x8021}[g.Intn(6)]
+			id = []int{0x000d, 0x0003, 0x000a, 0x0010, 0x000c, 0x8021, 0x0000, 0x0001, 0xffff, 0x00ff, 0xff00}[g.Intn(11)]
 		}
 		return fmt.Sprintf("%d:%d:%s", id, ln, hexs(g.Bytes(n)))
 	}
